@@ -823,6 +823,10 @@ impl<'a> GeneratorState<'a> {
             Expr::Integer(i) => Ok(ExprType::Immediate(!*i)),
             _ => { 
                 let left = self.generate_expr(expr, pos, false, false)?;
+                if let ExprType::Immediate(i) = left {
+                    // A constant is complemented as a whole, like a literal
+                    return Ok(ExprType::Immediate(!i));
+                }
                 let right = ExprType::Immediate(0xff);
                 self.generate_arithm(&left, &Operation::Xor(false), &right, pos, false)
             },
